@@ -351,11 +351,67 @@ contract(
 )
 
 
+def _edge_rows_proof(P):
+    """which rows recompute_edges edits: the change points of is_burst alternate rising / falling (parity of the number of
+    changes before a position, by induction over the positions, given that the first cycle is never a burst), the
+    comprehension with `idx % 2 == 0` picks change points 0, 2, 4, ... and the one with `idx % 2 == 1` picks 1, 3, 5, ..."""
+    import z3
+    from .extrema import cmap_lemmas, _cmap_of
+    from vf.engine import zbool, to_int
+    E, env = P.E, P.env
+    ib_arr, edges = env['is_burst'], env['burst_edges']
+    n = ib_arr.n
+    ib = lambda x: zbool(E.rd(ib_arr, x))
+    AE = _cmap_of(E, edges)
+    gE, cE, tE = edges.meta['g'], edges.meta['cnt'], edges.n
+    cmap_lemmas(P, AE, gE, cE, tE, 'E')
+    mE = AE['n']
+    x, m, k, i = z3.Int('R_x'), z3.Int('R_m'), z3.Int('R_k'), z3.Int('R_i')
+    P.ground('first-not-burst', z3.And(z3.Not(ib(0)), mE == n - 1), by=[AE['base']])
+    P.induct_q('par', x, 0, mE, ib(x) == (cE(x) % 2 == 1), lambda it: [AE['rec'](it), P.inst('first-not-burst')])
+    P.forall('edge-par', [m], z3.And(0 <= m, m < tE),
+             z3.And(gE(m) >= 0, gE(m) + 1 < n, ib(gE(m)) == (m % 2 == 1), ib(gE(m) + 1) == (m % 2 == 0)),
+             by=[P.inst('E:cag', m), P.inst('par', gE(m)), P.inst('par', gE(m) + 1), P.inst('first-not-burst')])
+    # the two parity selections (the last two selection maps created: even positions, then odd positions)
+    maps = list(E.st.ghost['cmap_inst'].items())[-2:]
+    for tag, (key, A), par_ in (('even', maps[0], 0), ('odd', maps[1], 1)):
+        t_, g_, c_ = E.st.ghost[key]
+        cnt_formula = (lambda z_: (z_ + 1) / 2) if par_ == 0 else (lambda z_: z_ / 2)
+        P.ground(tag + ':len', A['n'] == tE, by=[])
+        P.induct_q(tag + ':cnt', i, 0, tE, c_(i) == cnt_formula(i), lambda it: [A['rec'](it), A['base'], P.inst(tag + ':len')])
+        P.forall(tag + ':g', [k], z3.And(0 <= k, k < t_), z3.And(g_(k) == 2 * k + par_, g_(k) < tE),
+                 by=[A['sel'](k), P.inst(tag + ':cnt', g_(k)), P.inst(tag + ':len'), A['base']])
+    st, en = env['burst_starts'], env['burst_ends']
+    P.forall('starts', [k], z3.And(0 <= k, k < st.n), z3.And(to_int(E.rd(st, k)) == gE(2 * k), 2 * k < tE), by=[P.inst('even:g', k)])
+    P.forall('ends', [k], z3.And(0 <= k, k < en.n), z3.And(to_int(E.rd(en, k)) == gE(2 * k + 1) + 1, 2 * k + 1 < tE), by=[P.inst('odd:g', k)])
+    P.forall('edge-rows', [k], z3.And(0 <= k, k < st.n, k < en.n),
+             z3.And(z3.Not(ib(to_int(E.rd(st, k)))), ib(to_int(E.rd(st, k)) + 1), ib(to_int(E.rd(en, k)) - 1), z3.Not(ib(to_int(E.rd(en, k)))),
+                    to_int(E.rd(st, k)) >= 0, to_int(E.rd(en, k)) < n, to_int(E.rd(st, k)) + 2 <= to_int(E.rd(en, k))),
+             by=[P.inst('starts', k), P.inst('ends', k), P.inst('edge-par', 2 * k), P.inst('edge-par', 2 * k + 1),
+                 AE['inc'](2 * k, 2 * k + 1)])
+
+
 def _res_frame_like(E, env):
     from vf.values import Frame
     f = env['df_features']
     cols = {c: E.new_arr(f.n, a.ty, kind='series', base='rce.' + c) for c, a in f.cols.items()}
     return Frame(E.new_ident(), f.n, cols)
+
+
+def _edited(centre):
+    """... and after the iteration both rows carry the one-sided values (NaN for a row at the very end of the table)"""
+    pk = 'True' if centre == 'peak' else 'False'
+    out = []
+    for row, d in (('start_idx', 'next'), ('end_idx', 'last')):
+        interior = "1 <= %s and %s < len(df_features) - 1" % (row, row)
+        out += [
+            "implies(%s, same(df_features_edges['amp_consistency'][%s], amp_consistency_spec(df_features['volt_rise'], "
+            "df_features['volt_decay'], %s, '%s', %s)))" % (interior, row, pk, d, row),
+            "implies(%s, same(df_features_edges['period_consistency'][%s], period_consistency_spec(df_features['period'], '%s', %s)))"
+            % (interior, row, d, row),
+            "implies(not (%s), isnan(df_features_edges['amp_consistency'][%s]) and isnan(df_features_edges['period_consistency'][%s]))"
+            % (interior, row, row)]
+    return out
 
 
 def _rces_cases():
@@ -382,7 +438,16 @@ def _rces_cases():
                     ["forall(i, 0 <= i < len(result), same(result['%s'][i], df_features['%s'][i]))" % (c, c) for c in keep] +
                     # the new labels are the threshold-and-run rule applied to the edited table
                     ["forall(i, 0 <= i < len(result), result['is_burst'][i] == minrun(%s, %s, i))" % (q, M)],
-            loops={1: dict(index='k', invariant=inv)}))
+            requires=["not df_features['is_burst'][0]"],
+            proof={('after_assign', 'burst_ends'): _edge_rows_proof},
+            # (the relabelling clause needs only what the detector's contract and the loop's exit invariant say)
+            ensures_using={10: ['call:detect_bursts_cycles#1', 'loop1-exit']},
+            loops={1: dict(index='k', invariant=inv, body_using=['edge-rows', 'loop1-inv', 'call:recompute_edge#1', 'call:recompute_edge#2'], body_ensures=[
+                # C16, for an ARBITRARY burst (per-iteration postcondition): the two rows handed to recompute_edge are the
+                # cycle immediately before the burst (not bursting, its successor bursting), recomputed looking forward,
+                # and the cycle immediately after it (its predecessor bursting), recomputed looking backward
+                "not is_burst[start_idx] and is_burst[start_idx + 1] and is_burst[end_idx - 1] and not is_burst[end_idx]",
+                "0 <= start_idx and end_idx < len(df_features)"] + _edited(centre))}))
     return out
 
 
